@@ -1295,6 +1295,11 @@ type jsonJWE struct {
 	Recipients  []jsonRecipient `json:"recipients"`
 	Tag         string          `json:"tag,omitempty"`
 	Unprotected map[string]any  `json:"unprotected,omitempty"`
+
+	// Header and EncryptedKey are used instead of Recipients by
+	// RFC 7516 Section 7.2.2. Flattened JWE JSON Serialization Syntax.
+	Header       map[string]any `json:"header,omitempty"`
+	EncryptedKey string         `json:"encrypted_key,omitempty"`
 }
 
 type jsonRecipient struct {
@@ -1347,6 +1352,18 @@ func ParseJSON(data []byte) (*Message, error) {
 	tag, err := b64Decode(b64tag)
 	if err != nil {
 		return nil, err
+	}
+
+	if raw.Recipients == nil {
+		// the flattened syntax: the message has exactly one recipient,
+		// and its "header" and "encrypted_key" members are placed in the top-level object.
+		// They are absent if the recipient has neither a header nor an encrypted key.
+		raw.Recipients = []jsonRecipient{{
+			Header:       raw.Header,
+			EncryptedKey: raw.EncryptedKey,
+		}}
+	} else if raw.Header != nil || raw.EncryptedKey != "" {
+		return nil, errors.New("jwe: failed to parse JWE: both recipients and header or encrypted_key are set")
 	}
 
 	recipients := make([]*Recipient, 0, len(raw.Recipients))
